@@ -51,3 +51,63 @@ End Memo.
 Theorem memo_refuted : exists (f : nat * nat -> nat) (key : nat * nat -> nat) (h : list (nat * nat)) (x : nat * nat),
   snd (call (nat * nat) nat nat key Nat.eqb f (fun c => c) (run_history (nat * nat) nat nat key Nat.eqb f (fun c => c) [] h) x) <> f x.
 Proof. exists (fun p => fst p + snd p), fst, [(1, 5)], (1, 7). vm_compute. lia. Qed.
+
+(* ---- the same defect with a set-like key: a cache keyed on a frozenset of defects (equal irrespective of
+   order) in front of a computation that depends on the order in which the defects are presented (tie-break
+   between equal-weight matchings by node insertion order).  The key identifies two presentations, f does not. *)
+Fixpoint ins (a : nat) (l : list nat) : list nat :=
+  match l with [] => [a] | b :: r => if a <=? b then a :: l else b :: ins a r end.
+Definition as_set (l : list nat) : list nat := fold_right ins [] l.
+Fixpoint list_eqb (a b : list nat) : bool :=
+  match a, b with [] , [] => true | x :: r, y :: s => Nat.eqb x y && list_eqb r s | _, _ => false end.
+Lemma list_eqb_spec a : forall b, list_eqb a b = true <-> a = b.
+Proof.
+  induction a as [|x r IH]; intros [|y s]; cbn; split; intros H; try discriminate; auto.
+  - apply andb_true_iff in H as [H1 H2]. apply Nat.eqb_eq in H1. apply IH in H2. now subst.
+  - injection H as -> ->. rewrite Nat.eqb_refl. cbn. now apply IH.
+Qed.
+(* if the cached computation factors through the key, it is history-independent ... *)
+Theorem memo_pure_factor : forall (X K V : Type) (key : X -> K) keqb,
+  (forall a b, keqb a b = true <-> a = b) -> forall (g : K -> V) evict,
+  (forall c k v, find K V keqb k (evict c) = Some v -> find K V keqb k c = Some v) ->
+  forall h x, snd (call X K V key keqb (fun x => g (key x)) evict
+                     (run_history X K V key keqb (fun x => g (key x)) evict [] h) x) = g (key x).
+Proof.
+  intros X K V key keqb Hk g evict He h x.
+  apply (memo_pure X K V key keqb Hk (fun x => g (key x)) evict He). intros a b E. now rewrite E.
+Qed.
+(* ... and an order-dependent computation behind a set key is not: the "first defect" of [1;2] after [2;1] *)
+Theorem memo_refuted_setkey : exists (f : list nat -> nat) (h : list (list nat)) (x : list nat),
+  snd (call (list nat) (list nat) nat as_set list_eqb f (fun c => c)
+         (run_history (list nat) (list nat) nat as_set list_eqb f (fun c => c) [] h) x) <> f x.
+Proof. exists (hd 0), [[2; 1]], [1; 2]. vm_compute. lia. Qed.
+
+(* ---- process-global ambient state (mpmath working precision, numpy error state, ...): every component call
+   reads it and may write it.  If every component leaves the part of the ambient state that results depend on as
+   it found it (mp.workdps: set, compute, restore), a result does not depend on what ran before; a component that
+   sets it and does not restore it makes other components' results history-dependent. *)
+Section Ambient.
+Variable S X Y W : Type.
+Variable comp : S -> X -> S * Y.
+Variable view : S -> W.               (* the part of the ambient state that results depend on *)
+Hypothesis reads_view : forall s s' x, view s = view s' -> snd (comp s x) = snd (comp s' x).
+Fixpoint amb_history (s : S) (h : list X) : S :=
+  match h with [] => s | x :: r => amb_history (fst (comp s x)) r end.
+Theorem ambient_pure : (forall s x, view (fst (comp s x)) = view s) ->
+  forall h s x, snd (comp (amb_history s h) x) = snd (comp s x).
+Proof.
+  intros Hr h. induction h as [|y r IH]; intros s x; cbn [amb_history]; [reflexivity|].
+  rewrite IH. apply reads_view, Hr.
+Qed.
+End Ambient.
+(* a scoped precision change (workdps): the body runs at precision p, the caller's precision is restored *)
+Definition scoped {X Y : Type} (p : nat) (body : nat -> X -> Y) (s : nat) (x : X) : nat * Y := (s, body p x).
+Lemma scoped_restores {X Y : Type} p (body : nat -> X -> Y) s x : fst (scoped p body s x) = s.
+Proof. reflexivity. Qed.
+(* components: inl x = "round x to the ambient precision" (reads), inr p = "set the precision to p and leave it"
+   (the unscoped variant).  After [inr 3] rounding 1234 to the ambient number of digits gives another answer. *)
+Definition leaky (s : nat) (c : nat + nat) : nat * nat :=
+  match c with inl x => (s, x mod (10 ^ s)) | inr p => (p, 0) end.
+Theorem ambient_refuted : exists (h : list (nat + nat)) (x : nat + nat),
+  snd (leaky (amb_history nat (nat + nat) nat leaky 2 h) x) <> snd (leaky 2 x).
+Proof. exists [inr 3], (inl 1234). vm_compute. lia. Qed.
